@@ -607,6 +607,15 @@ class Connection:
         s.point(label=f"pipe.send:{p.id}")
         if p.readers == 0:
             raise BrokenPipeError(32, "Broken pipe")
+        if total <= p.pipe_buf and total > p.free():
+            # an atomic write blocks until all of it fits
+            s.point(lambda: p.free() >= total or p.readers == 0, label=f"pipe.send=:{p.id}")
+            if p.readers == 0:
+                raise BrokenPipeError(32, "Broken pipe")
+        if any(m[2] < m[1] for m in p.msgs):
+            # another writer is in the middle of a multi-chunk message: these bytes land
+            # inside it (what a lock around send_bytes is there to prevent)
+            p.corrupt = True
         if total <= p.free():
             p.msgs.append([data, total, total, 0])
             return
@@ -637,6 +646,8 @@ class Connection:
             m[3] = m[2]          # drain what has been written so far
             if m[3] >= m[1]:
                 p.msgs.pop(0)
+                if p.corrupt:
+                    return b"\x00interleaved-writes"      # not a message any more
                 return m[0]
             if p.writers == 0:
                 p.msgs.pop(0)
